@@ -960,12 +960,12 @@ inline void enumerate_small(const PropSpec& ps, const Tier& t, int worker, int n
       }
     if (st_out) st_out->subspaces.push_back(std::string("symbol length sweep: ") + (t.thorough ? "every L in 1..8192, then multiples of 512 +-1 up to 65536 and protocol sizes" : "multiples of 512 +-1 up to 65536 and protocol sizes (1472, 8972, 9000, 12288, 65507, 65535)") + " on " + std::to_string(lc.size()) + " tiny codes with one source and one repair lost" + (ml_entry != (size_t)-1 ? " (one LDPC code with a received set that needs the ML pass)" : "") + ": complete");
     if (st_out) st_out->counters["L_sweep_cases_through_ML"] += swept_ml;
-    // number of repair symbols (LDPC): every r = n-k in 3..8192 (quick) / 3..24999 (thorough) at rate 1/2 (k = r, N1 = 3: no extra
+    // number of repair symbols (LDPC): every r = n-k in 3..8192 (quick) / 3..16384 (thorough) at rate 1/2 (k = r, N1 = 3: no extra
     // entries, every source in three equations). The lost set is a stopping set read off the reference code: the source s whose
     // equations x < y < z lie closest together, and the repairs p_x .. p_(z-1). Every equation x..z then keeps two unknowns, so
     // iterative decoding is stuck, and the sum of equations x..z yields s: of_finish_decoding has to run its ML pass.
     if ((ps.go.codecs & GC_LDPC) && ps.go.finish_mode != 2) {
-      const uint32_t rmax = t.thorough ? 24999 : 8192;
+      const uint32_t rmax = t.thorough ? 16384 : 8192;
       uint64_t unknowns_sum = 0, cases = 0;
       for (uint32_t r = 3; r <= rmax; r++) {
         if ((idx++ % (uint64_t)nworkers) != (uint64_t)worker) continue;
